@@ -61,15 +61,16 @@ structure Parts where
   under : Fl
   over : Fl
 
-/-- `crps_cdf_exact` on one row -/
+/-- `crps_cdf_exact` on one row (the exact-integration step; after repair c6c9dbb every piece integral is
+    multiplied by the right-continuous weight on that piece, `piece_weight = threshold_weight.shift(1)`) -/
 def exactRow (grid : List Rat) (f o w : List Fl) : Parts :=
   let ok := inputsWithoutNan f o w
-  let wOne := List.zipWith (fun a b => Fl.beq a one || Fl.beq b one) w (shift1 w)
+  let pw := shift1 w
   let oOne := o.map (fun a => Fl.beq a one)
   let oZero := List.zipWith (fun a b => Fl.beq a (fin 0) || Fl.beq b (fin 0)) o (shift1 o)
-  let over0 := integrateSq grid (whereL (whereL (f.map (Fl.sub · one)) oOne) wOne)
+  let over0 := integrateSqW grid (whereL (f.map (Fl.sub · one)) oOne) pw
   let over := Fl.whereB (Fl.whereB over0 (!over0.isNan) (fin 0)) ok
-  let under0 := integrateSq grid (whereL (whereL f oZero) wOne)
+  let under0 := integrateSqW grid (whereL f oZero) pw
   let under := Fl.whereB (Fl.whereB under0 (!under0.isNan) (fin 0)) ok
   { total := Fl.add over under, under := under, over := over }
 
